@@ -69,7 +69,12 @@ def scenario(draw):
     if logger and draw(st.booleans()):
         updates.append({"t": draw(dy) * 4, "logger_dt": draw(st.sampled_from([1 / 64.0, 1 / 16.0, 1 / 128.0, 5 / 64.0]))})
     tf = draw(st.sampled_from([0.25, 0.5, 1.0, 1.5]))
-    return {"topics": topics, "pre": pre, "nodes": nodes, "logger": logger, "logger_dt": ldt, "procs": procs,
+    relays = []
+    if nt >= 2:
+        for _ in range(draw(st.integers(0, 2))):
+            src = draw(st.integers(0, nt - 2))
+            relays.append({"src": src, "dst": draw(st.integers(src + 1, nt - 1))})
+    return {"relays": relays, "topics": topics, "pre": pre, "nodes": nodes, "logger": logger, "logger_dt": ldt, "procs": procs,
             "updates": updates, "tf": tf}
 
 
@@ -78,6 +83,9 @@ def seq_field(tname):
 
 
 def run_scenario(sc):
+    # domain guards (also protect the float simplifier from wandering into a zero logging period = endless loop)
+    require(all(u.get("logger_dt", 1.0) >= 1.0 / 512 for u in sc["updates"]) and (sc["logger_dt"] is None or sc["logger_dt"] >= 1.0 / 512))
+    require(0 < sc["tf"] <= 4 and all(d >= 0 for pr in sc["procs"] for d in pr["delays"]) and all(u["t"] >= 0 for u in sc["updates"]))
     msgs, uros, simpy = mods()
     core = uros.Core()
     nt = len(sc["topics"])
@@ -102,6 +110,19 @@ def run_scenario(sc):
         for _ in range(t["subs_early"]):
             add_sub(ti)
     late_left = [t["subs_late"] for t in sc["topics"]]
+    relay_log = []
+
+    def add_relay(src, dst):
+        def cb(msg):
+            seq_in = float(msg.data["time"])
+            n0 = len(log["pubs"][dst])
+            do_publish(dst)  # nested publish from inside a callback: checked like any other publish
+            relay_log.append((seq_in, log["pubs"][dst][n0][0]))
+
+        uros.Subscriber(core, "topic%d" % src, mtypes[src], cb)
+
+    for rl in sc.get("relays", []):
+        add_relay(rl["src"], rl["dst"])
 
     def do_publish(ti, msg_obj=None, wrong=False):
         """publish one message with a fresh sequence number; checks synchronous exactly-once delivery"""
@@ -128,8 +149,15 @@ def run_scenario(sc):
         m.data["time"] = seq
         expected = list(subs_of[ti])
         log["pubs"][ti].append((seq, float(core.now)))
+        n_relayed_before = len(relay_log)
         pubs[ti].publish(m)
+        n_rel = sum(1 for rl in sc.get("relays", []) if rl["src"] == ti)
+        if len(relay_log) - n_relayed_before < n_rel:
+            raise Violation("publish #%d on topic%d returned before the callbacks of its subscribers had run (relay callbacks "
+                            "run: %d of %d)" % (int(seq), ti, len(relay_log) - n_relayed_before, n_rel), scenario=sc)
         for sid in received:
+            if not sid.startswith("t%d_" % ti):
+                continue  # other topics may legitimately receive relayed messages during this call (checked in their own publish)
             grew = len(received[sid]) - before[sid]
             want = 1 if sid in expected else 0
             if grew != want:
@@ -258,12 +286,22 @@ def run_scenario(sc):
                 raise Violation("logger: %d rows (last %.17g), expected one row per period %g in [0, %g): %d rows" % (
                     len(times), times[-1], dt, sc["tf"], len(want)), scenario=sc)
         else:
-            # with period updates: each gap equals one of the periods in force around that time
-            vals = {dt} | {v for _, v in changes}
+            # with period updates: the gap after a row equals the period in force when that row was taken
+            # (an update at exactly the row time may or may not have been seen)
+            def in_force(tq, inclusive):
+                v = dt
+                for (tu, val) in changes:
+                    if tu < tq or (inclusive and tu == tq):
+                        v = val
+                return v
+
             for a, b in zip(times, times[1:]):
-                if not any(abs((b - a) - v) < 1e-9 for v in vals):
-                    raise Violation("logger: gap %g between rows is none of the configured periods %s" % (b - a, sorted(vals)), scenario=sc)
-            if sc["tf"] - times[-1] > max(vals) + 1e-9:
+                allowed = {in_force(a, False), in_force(a, True)}
+                if not any(abs((b - a) - v) < 1e-9 for v in allowed):
+                    raise Violation("logger: gap %g after the row at t=%g, but the logging period in force then was %s "
+                                    "(period updates: %s)" % (b - a, a, sorted(allowed), changes), scenario=sc)
+            last_allowed = max(in_force(times[-1], False), in_force(times[-1], True))
+            if sc["tf"] - times[-1] > last_allowed + 1e-9:
                 raise Violation("logger: no row in the last %g s" % (sc["tf"] - times[-1]), scenario=sc)
         for ti in range(nt):
             col = arr["topic%d" % ti]["time"]
@@ -299,6 +337,8 @@ def bus_classify(sc):
         out.append("logger-period-update")
     if any(not nd["follows"] for nd in sc["nodes"]):
         out.append("non-following-node")
+    if sc.get("relays"):
+        out.append("relay")
     return out
 
 
@@ -465,7 +505,7 @@ def build(tier):
             "before the later of two successive corrections",
         ],
         "require_classes": {"bus/scenario": ["logger", "late-subscriber-after-publish", "wrong-type", "reused-msg",
-                                             "logger-period-update", "non-following-node"],
+                                             "logger-period-update", "non-following-node", "relay"],
                             "estimator/scheduling": ["non-positive-dt", "too-early-correction-opportunity", "dt_min-update",
                                                      "accel>mag", "accel<mag"]},
         "matchers": {},
